@@ -79,6 +79,18 @@ def r1(ctx, table):
             if leak:
                 bad.append("after %s is built the function goes on to emit (%s at %s) instead of returning the error" % (
                     e["error"][4:], X.short(leak[0].callee), leak[0].loc()))
+        # must-pass-through: no success return is reachable around the decision (a branch that emits nothing and returns
+        # Ok - e.g. the zero-width encoding of a single-value range - must still have tested the value)
+        free = b.reach_from(0, avoid=decisions)
+        for bb in sorted(free):
+            for st in b.blocks[bb]["stmts"]:
+                if st["k"] == "assign" and st["pl"]["l"] == 0 and not st["pl"]["p"] and st["rv"]["k"] == "agg" \
+                        and st["rv"].get("variant") == "Ok":
+                    bad.append("`Ok` at %s is returned on a path that never compares the value with the bounds" % span_loc(st["sp"]))
+            t = b.blocks[bb]["term"]
+            if t and t["k"] == "call" and t["dest"]["l"] == 0 and not t["dest"]["p"] and bb not in decisions:
+                bad.append("the result of the call at %s is returned on a path that never compares the value with the bounds"
+                           % span_loc(t["sp"]))
         detail["emitting_calls"] = len(emits)
         if bad:
             ctx.fail(rule, e["id"] + "#order", "; ".join(bad[:3]), "%s:%d" % (b.file, b.line), detail)
